@@ -446,6 +446,10 @@ def confirm(chk, bad):
 
 def body(chk):
     obligations(chk, 'C17')
+    # the runner side of "a step is matched only against definitions of its own keyword type": run_step asks the collection
+    # about every step as itself (two scenarios whose steps have the same text)
+    from checks import attempt_driver
+    attempt_driver.run_pair(chk, 'C17')
 
 
 if __name__ == '__main__':
